@@ -173,4 +173,112 @@ def ttpTimes (d : PData α) (tf : α) (fuel : Nat) (es : List (Entry α)) : List
 
 end generic
 
+/-! ### registration state: which conditions one model holds, through any history of
+`addStoppingCondition` / `clearStoppingConditions` / `reset` / `solve` / `TTPCalculator(model, conds)`
+
+The condition *objects* live outside the model (the user or the TTP calculator holds them): object
+`i` of the pool has the fixed condition `conds i` and the latch `latches i`.  The model holds
+references to them in `_stoppingConditions` (here: pool indices) with `_stopConditionMode` side by
+side (True = 'or').  KWNBase.py: `addStoppingCondition` 458-474 appends to both lists,
+`clearStoppingConditions` 476-481 empties both, `reset` 102-104 resets the latches of the objects
+that are registered *now*, `postProcess` 613-629 loops over the registered list only and counts the
+and-conditions in that loop; TimeTemperaturePrecipitation.py 24-28: the constructor clears the
+model's list and then adds each of its conditions with mode 'and'. -/
+
+/-- everything a stopping decision of the model can depend on -/
+structure Reg (α : Type) where
+  latches : Nat → Latch α        -- latch of pool object i
+  reg : List (Nat × Bool)        -- (`_stoppingConditions[j]` as pool index, `_stopConditionMode[j]`)
+
+/-- one call made on the model (or the construction of a TTP calculator on it) -/
+inductive Op (α : Type) where
+  | add (i : Nat) (isOr : Bool)                       -- addStoppingCondition(obj_i, 'or' | 'and')
+  | clear                                             -- clearStoppingConditions()
+  | reset                                             -- reset()
+  | solve (d : PData α) (tf : α) (fuel k0 : Nat)      -- solve(...) entered at row k0, history d, end time tf
+  | ttpInit (is : List Nat)                           -- TTPCalculator(model, [obj_i for i in is])
+
+section registration
+variable {α : Type} [Add α] [Sub α] [Mul α] [Div α] [Neg α] [One α] [LT α] [DecidableLT α]
+
+/-- a new model: nothing registered; new condition objects: clear -/
+def Reg.fresh : Reg α := ⟨fun _ => Latch.clear, []⟩
+
+def Reg.add (s : Reg α) (i : Nat) (isOr : Bool) : Reg α := { s with reg := s.reg ++ [(i, isOr)] }
+
+def Reg.clear (s : Reg α) : Reg α := { s with reg := [] }
+
+/-- `TTPCalculator.__init__`: `clearStoppingConditions()`, then every condition with mode 'and' -/
+def Reg.ttpInit (s : Reg α) (is : List Nat) : Reg α := is.foldl (fun s i => s.add i false) s.clear
+
+/-- what `postProcess` loops over: the registered objects, in order, with their modes and their
+current latches -/
+def Reg.entries (conds : Nat → Cond α) (s : Reg α) : List (Entry α) :=
+  s.reg.map (fun r => ⟨conds r.1, r.2, s.latches r.1⟩)
+
+/-- the objects keep the latches the run gave them (an object registered twice is tested twice per
+step; `test` is idempotent on a row, so both entries carry the same latch — the first is taken) -/
+def Reg.writeBack (s : Reg α) (es : List (Entry α)) : Reg α :=
+  { s with latches := fun i =>
+      match (s.reg.zip es).find? (fun p => p.1.1 == i) with
+      | some p => p.2.l
+      | none => s.latches i }
+
+/-- `KWNBase.reset`: `for sc in self._stoppingConditions: sc.reset()` — only the registered objects -/
+def Reg.resetModel (s : Reg α) : Reg α :=
+  { s with latches := fun i => if s.reg.any (fun r => r.1 == i) then Latch.clear else s.latches i }
+
+/-- `solve`: the loop of `run` over the registered entries; returns (last row, stopped early, state) -/
+def Reg.solve (conds : Nat → Cond α) (s : Reg α) (d : PData α) (tf : α) (fuel k0 : Nat) :
+    Nat × Bool × Reg α :=
+  let r := run d tf fuel k0 (s.entries conds)
+  (r.1, r.2.1, s.writeBack r.2.2)
+
+def Reg.step (conds : Nat → Cond α) (s : Reg α) : Op α → Reg α
+  | .add i o => s.add i o
+  | .clear => s.clear
+  | .reset => s.resetModel
+  | .solve d tf fuel k0 => (s.solve conds d tf fuel k0).2.2
+  | .ttpInit is => s.ttpInit is
+
+/-- the state after a whole history of calls -/
+def Reg.after (conds : Nat → Cond α) (s : Reg α) (ops : List (Op α)) : Reg α :=
+  ops.foldl (Reg.step conds) s
+
+/-- does this call register an and-condition? -/
+def Op.addsAnd : Op α → Bool
+  | .add _ false => true
+  | .ttpInit _ => true
+  | _ => false
+
+/-- `TTPCalculator._getStopTime` on the registration state: `reset(); setTemperature(T); solve(maxTime)`
+and then `satisfiedTime()` of each of the calculator's own objects `is` -/
+def Reg.ttpStopTimes (conds : Nat → Cond α) (s : Reg α) (is : List Nat) (d : PData α) (tf : α) (fuel : Nat) :
+    List α × Reg α :=
+  let s' := (s.resetModel.solve conds d tf fuel 0).2.2
+  (is.map (fun i => (s'.latches i).time), s')
+
+/-! #### two variants that are NOT the code (used for the witness theorems of Props/C19) -/
+
+/-- variant of `stopFlag` that takes the number of and-conditions from a separately kept counter
+instead of counting them in the loop -/
+def stopFlagCnt (numAnd : Nat) (es : List (Entry α)) : Bool :=
+  let r := accumulate es
+  r.1 || (if numAnd = 0 then false else r.2.1)
+
+/-- that counter through a history when only the registering calls maintain it (incremented for
+every and-condition added, never taken back by `clear`) -/
+def staleCount (n : Nat) : List (Op α) → Nat
+  | [] => n
+  | .add _ false :: ops => staleCount (n + 1) ops
+  | .ttpInit is :: ops => staleCount (n + is.length) ops
+  | _ :: ops => staleCount n ops
+
+/-- variant of the TTP constructor that keeps what the model holds and only appends the objects
+that are not registered yet -/
+def Reg.ttpInitKeep (s : Reg α) (is : List Nat) : Reg α :=
+  is.foldl (fun s i => if s.reg.any (fun r => r.1 == i) then s else s.add i false) s
+
+end registration
+
 end KawinV.StopCond
